@@ -2,7 +2,7 @@
 import re
 
 from .. import mir
-from ..mir import short, last, strip, walk
+from ..mir import short, last, strip, walk, norm
 
 INTERIOR = re.compile(
     r"\b(UnsafeCell|Cell|RefCell|OnceCell|LazyCell|SyncUnsafeCell|Atomic\w+|Mutex|RwLock|OnceLock|LazyLock|"
@@ -93,3 +93,44 @@ def uses_local(op, l):
         if pe["k"] == "index" and pe["local"] == l:
             return True
     return False
+
+
+def closure_creation(cx, crate, body):
+    """(parent_body, [captured operand exprs]) for closure `body`, or (None, None)."""
+    par = body.fn.get("parent")
+    if not par or par not in crate.fns:
+        return None, None
+    pb = cx.body(crate, par)
+    if pb is None:
+        return None, None
+    for bi in sorted(pb.reach):
+        for st in pb.blocks[bi]["stmts"]:
+            if st["k"] == "assign" and st["rv"]["k"] == "agg" and st["rv"].get("agg") == "closure" and st["rv"]["def"] == body.path:
+                return pb, [norm(pb.expr_op(o)) for o in st["rv"]["ops"]]
+    return pb, None
+
+
+def capture_root(cx, crate, body, e, depth=0):
+    """Resolve an upvar expression up the closure chain: returns (body, expr) where expr
+    is expressed in `body`'s own terms (a non-closure fn or an unresolvable closure)."""
+    e = norm(e)
+    if e[0] == "upvar" and body.is_closure and depth < 8:
+        pb, caps = closure_creation(cx, crate, body)
+        if pb is None or caps is None or e[1] >= len(caps):
+            return body, e
+        return capture_root(cx, crate, pb, caps[e[1]], depth + 1)
+    return body, e
+
+
+def closure_uses(cx, crate, body):
+    """Where is closure `body` consumed in its parent: list of (parent_body, bb, call term, arg index)."""
+    pb, caps = closure_creation(cx, crate, body)
+    out = []
+    if pb is None:
+        return out
+    for i, t in pb.calls():
+        for ai, a in enumerate(t["args"]):
+            e = norm(pb.expr_op(a))
+            if e[0] == "closure" and e[1] == body.path:
+                out.append((pb, i, t, ai))
+    return out
